@@ -63,6 +63,20 @@ PROPS = {
                  "the restart. Distinct = hash of the case."),
         "assumptions": ["remote versions a restarted node no longer lists (all their changes lost the merge) are offered again by the harness", "the shutdown sequence mirrors crates/klukai/src/command/agent.rs"],
     },
+    "C14": {
+        "level": "exploration",
+        "workers": 16,
+        "engine": "E3-live",
+        "technique": "property-based testing against a live agent with a listener on POST /v1/updates/{table}: generated hot-key histories (insert, update, delete, re-insert, key move) executed locally over HTTP and on two real origin nodes whose broadcasts arrive in a generated permutation; oracle: the table itself (keys whose row differs across a phase must have been notified; the last notification of every key must match the row's existence once quiet)",
+        "level_text": ("feed on svc, inst (composite key) or meta; 0-4 transactions before attaching, then 1-3 (quick) / 1-6 (thorough) phases of 2-7 transactions of 1-3 statements biased to two keys per table so that "
+                       "the same key is inserted, deleted and re-inserted in quick succession by up to three writers; remote broadcasts of a phase are held back and delivered in a generated permutation (so a "
+                       "delete can arrive after the re-insert that follows it causally); after each phase, once the remote versions are applied and the feed has been silent for 900 ms (batching window 600 ms), "
+                       "every key whose row differs from the start of the phase must have at least one notification in that phase, and for every key ever notified the last notification must be 'delete' exactly "
+                       "when the row is absent; verdicts are taken at an 8 s ceiling only"),
+        "level_note": "a notification carries no state beyond update/delete, so 'older state after newer state' is observable only through the final fate (which is what is asserted) - intermediate reorderings between two 'update' notifications are invisible to any listener; changes that leave a row as it was (A->B->A inside a phase) are not required to be notified by this oracle although the property demands it",
+        "rule": ("generated as above. Non-trivial: at least 3 notifications, at least one delete notification and at least one key whose notified fate changed (update after delete or delete after update). Distinct = hash of the case."),
+        "assumptions": ["the listener is registered when the response headers of POST /v1/updates/{table} arrive (changes made before that are not required)"],
+    },
     "C15": {
         "level": "exploration",
         "workers": 16,
